@@ -39,6 +39,9 @@ type Contract struct {
 	// ReturnsAfter: every return must be dominated by a statement on a line containing After,
 	// unless it is dominated by a statement on a line containing one of Unless
 	ReturnsAfter []*ReturnsAfter
+	// ThenReturns: a call on a line containing the anchor is the last thing the function does
+	// before returning (only deferred calls may follow)
+	ThenReturns []string
 	AssertsAt []*AssertAt // in-body assertions, attached to the statement whose source line contains Anchor
 }
 
@@ -192,7 +195,7 @@ func newRegistry() *Registry {
 }
 
 var stmtKeywords = map[string]bool{
-	"package": true, "func": true, "requires": true, "ensures": true, "assume_ensures": true, "assert_at": true, "assume_at": true, "snapshot_at": true, "returns_after": true, "modifies": true, "unshared": true, "loop": true,
+	"package": true, "func": true, "requires": true, "ensures": true, "assume_ensures": true, "assert_at": true, "assume_at": true, "snapshot_at": true, "returns_after": true, "then_returns": true, "modifies": true, "unshared": true, "loop": true,
 	"invariant": true, "option": true, "trusted": true, "pure": true, "spec": true, "ufunc": true,
 	"axiom": true, "ghost": true, "decreases": true, "opaque": true, "macro": true, "mapvalues": true, "elemvalues": true, "guarded": true, "monitor": true, "frameset": true, "pkgalias": true, "lemmaonly": true, "dead": true, "lemma": true, "induct": true,
 }
@@ -443,6 +446,16 @@ func (r *Registry) loadContractFile(path string, pkgPath string) error {
 					}
 				}
 			}
+		case "then_returns":
+			// then_returns "anchor": after a call on a matching line the function returns
+			if cur == nil {
+				return fail("then_returns outside func")
+			}
+			m := regexp.MustCompile(`^"((?:[^"\\]|\\.)*)"`).FindStringSubmatch(s.rest)
+			if m == nil {
+				return fail(`then_returns needs '"anchor text"'`)
+			}
+			cur.ThenReturns = append(cur.ThenReturns, m[1])
 		case "returns_after":
 			// returns_after "anchor" [unless "a", "b", ...]
 			if cur == nil {
